@@ -11,7 +11,7 @@ class Gen:
         self.holder = holder
         self.n = 0
         self.paths = []      # expression (given `v: &T`) evaluating to &P<H> per leaf
-        self.borrows = []    # expressions evaluating to &RefCell<..> that must be mutably borrowed
+        self.borrows = []    # (expression evaluating to &RefCell<..>, method) that must be borrowed (borrow_mut / borrow) while collecting
 
     def ty(self, s):
         k, c = s['k'], s['c']
@@ -38,7 +38,7 @@ class Gen:
             return 'Result<%s, u32>' % self.ty(c[0])
         if k == 'err':
             return 'Result<u32, %s>' % self.ty(c[0])
-        if k in ('cell', 'cellb'):
+        if k in ('cell', 'cellb', 'cells'):
             return 'RefCell<%s>' % self.ty(c[0])
         if k == 'weak':
             return 'rust_cc::weak::Weak<Anchor>'
@@ -82,9 +82,11 @@ class Gen:
             return 'Ok(%s)' % self.ctor(c[0], '(%s).as_ref().ok().unwrap()' % path)
         if k == 'err':
             return 'Err(%s)' % self.ctor(c[0], '(%s).as_ref().err().unwrap()' % path)
-        if k in ('cell', 'cellb'):
+        if k in ('cell', 'cellb', 'cells'):
             if k == 'cellb':
-                self.borrows.append(path)
+                self.borrows.append((path, 'borrow_mut'))
+            if k == 'cells':
+                self.borrows.append((path, 'borrow'))
             return 'RefCell::new(%s)' % self.ctor(c[0], 'unsafe { &*(%s).as_ptr() }' % path)
         if k == 'weak':
             return 'rust_cc::weak::Weak::new()'
@@ -131,7 +133,7 @@ def gen_shape_case(idx, row):
     out.append('    fn build() -> %s { %s { v: %s } }' % (H, H, ctor))
     out.append('    fn probes(&self) -> Vec<&P<%s>> { let self_ = self; vec![%s] }' % (H, ', '.join(g.paths)))
     out.append('}')
-    borrows = ''.join('let _g%d = (%s).borrow_mut(); ' % (i, b.replace('self_', 'hr')) for i, b in enumerate(g.borrows))
+    borrows = ''.join('let _g%d = (%s).%s(); ' % (i, b.replace('self_', 'hr'), meth) for i, (b, meth) in enumerate(g.borrows))
     t = [bool(v['t']) for v in vis]
     f = [bool(v['f']) for v in vis]
     out.append('fn case_%d(rep: &mut Report) {' % idx)
